@@ -117,6 +117,35 @@ func init() {
 			st.NOutcomes = int(st.Execs)
 			c.Sample(map[string]interface{}{"scenario": "sizes", "sizes": sizes})
 		}
+		if c.Want("resize-by-reload") && c.Shard == 0 {
+			st := c.Stat("resize-by-reload", "enumeration")
+			st.Bounds = "a cache re-configured under the same name from size S1 to S2 (S1,S2 in {3,7,100,2000}), then 4*max+64 inserts: residency <= max(S1,S2)"
+			for _, s1 := range []int{3, 7, 100, 2000} {
+				for _, s2 := range []int{3, 7, 100, 2000} {
+					cache.VerifFreshRegistries()
+					cache.ResetDispatchers([]config.CacheConfig{{Name: "c", Size: s1, HitForPass: "5m"}})
+					cache.ResetDispatchers([]config.CacheConfig{{Name: "c", Size: s2, HitForPass: "5m"}})
+					d := cache.GetDispatcher("c")
+					bound := s1
+					if s2 > bound {
+						bound = s2
+					}
+					max := 0
+					for j := 0; j < 4*bound+64; j++ {
+						d.GetHTTPCache([]byte(fmt.Sprintf("GET a.com /i%d", j)))
+						if r := sum(d.VerifShardLens()); r > max {
+							max = r
+						}
+					}
+					st.Execs++
+					if max > bound {
+						c.Violation("resize-by-reload", "resident-exceeds-every-configured-size", fmt.Sprintf("cache configured with size %d then %d holds %d entries", s1, s2, max), nil, map[string]int{"s1": s1, "s2": s2}, nil)
+					}
+				}
+			}
+			st.States, st.Transitions, st.Nontrivial = st.Execs, st.Execs, st.Execs
+			st.NOutcomes = int(st.Execs)
+		}
 		depth := 7
 		if c.Thorough() {
 			depth = 9
